@@ -134,6 +134,16 @@ def arith(op, l, lt, r, rt):
     return v & ((1 << ct[0]) - 1), ct
 
 
+class _Parked:
+    transitions = ()
+
+    def __repr__(self):
+        return "<parked after end() returned FAIL>"
+
+
+PARKED = _Parked()
+
+
 class AM:
     def __init__(self, dctx, name="p"):
         self.d = dctx
@@ -365,8 +375,8 @@ class AM:
                 return t
         return self.else_transition(s)
 
-    def immediate_done(self, t):
-        return id(t.target) in self.acc and not self.strict_done and all(x.error_handling for x in t.target.transitions)
+    def immediate_done(self, t, from_end=False):
+        return id(t.target) in self.acc and (from_end or not self.strict_done) and all(x.error_handling for x in t.target.transitions)
 
     # ---------------------------------------------------------------- one byte
     def feed_byte(self, cfg, b):
@@ -396,6 +406,8 @@ class AM:
                 if t is None:
                     return ("FAIL", 0, ev)
             else:
+                if self.postponed_done(s):
+                    return ("DONE", 0, ev)
                 t = self.pick(s, ch)
                 if t is None:
                     return ("DONE" if id(s) in self.acc else "OK*", 0, ev)
@@ -431,7 +443,17 @@ class AM:
 
     # ---------------------------------------------------------------- end of input
     def end(self, cfg):
-        """-> (code, events).  Mirrors the shape of feed on the symbol End; hooks see 255."""
+        """-> (code, events).  A FAIL from end() is sticky: the machine is parked where every later call fails."""
+        code, ev = self._end_inner(cfg)
+        if code == "FAIL":
+            cfg["state"] = PARKED
+        return code, ev
+
+    def postponed_done(self, s):
+        return self.strict_done and id(s) in self.acc and all(x.error_handling for x in s.transitions)
+
+    def _end_inner(self, cfg):
+        """Mirrors the shape of feed on the symbol End; hooks see 255."""
         ev = []
         seen = set()
         for _ in range(self.max_steps):
@@ -443,6 +465,8 @@ class AM:
             if id(s) not in self.idx or s is self.fail:
                 return ("FAIL", ev)
             final = "DONE" if id(s) in self.acc else "FAIL"
+            if not isinstance(s, N.DFConditionPoint) and self.postponed_done(s):
+                return ("DONE", ev)
             if isinstance(s, N.DFConditionPoint):
                 t = None
                 for ct in s.transitions:
@@ -476,7 +500,7 @@ class AM:
                     continue
                 return (final, ev)
             ev.insert(mark, ("C", END))
-            if self.immediate_done(t):
+            if self.immediate_done(t, True):
                 return ("DONE", ev)
             return (final, ev)
         raise Spin("step budget exhausted in end()", self.idx.get(id(cfg["state"]), -1))
@@ -512,13 +536,15 @@ class AM:
         return ("OK", i, evs)
 
     def state_index(self, cfg):
+        if cfg["state"] is PARKED:
+            return len(self.states)
         return self.idx.get(id(cfg["state"]), -1)
 
     def key(self, cfg):
         return (self.state_index(cfg), tuple(sorted(cfg["data"].items())))
 
     def mkcfg(self, si, data):
-        return {"state": self.states[si], "data": dict(data)}
+        return {"state": self.states[si] if si < len(self.states) else PARKED, "data": dict(data)}
 
 
 def well_formed(am):
